@@ -8,6 +8,7 @@ import "strings"
 func init() {
 	vhRegister("vh_C03_rules", vh_C03_rules)
 	vhRegister("vh_C03_rules_twin", vh_C03_rules_twin)
+	vhRegister("vh_C09_inspection_rules", vh_C09_inspection_rules)
 	vhRegister("vh_C03_unpack", vh_C03_unpack)
 	vhRegister("vh_C03_keywordcase", vh_C03_keywordcase)
 	vhRegister("vh_C15_unpack", vh_C15_unpack)
@@ -247,6 +248,13 @@ func vh_C03_rules(a []int) {
 
 func vh_C03_rules_twin(a []int) {
 	vhC03(a, true)
+}
+
+// vh_C09_inspection_rules: the rules of an inspection are evaluated against
+// the inspection's own link (what the directory held before/after the command)
+// and the verified step links — the same scenario with an Inspection item.
+func vh_C09_inspection_rules(a []int) {
+	vhC03(a, false)
 }
 
 func vhC03(a []int, twin bool) {
